@@ -258,6 +258,8 @@ class SchedImpl:
                         await drain(loop)
                     elif op == 'sleep':
                         await vsleep(loop, int(tok[2]))
+                    elif op == 'sleepl':
+                        await vsleep(loop, int(tok[2]), int(tok[3]))
                     else:
                         raise HarnessError(f'unknown op {op}')
                 except Exception as e:  # noqa: BLE001
@@ -265,7 +267,7 @@ class SchedImpl:
                     if name in ('AttributeError', 'NotImplementedError'):
                         name = 'NotImplemented'
                     ret = f'ret err {name}'
-                if op not in ('yield', 'sleep', 'advance'):
+                if op not in ('yield', 'sleep', 'sleepl', 'advance'):
                     # coroutines started by this operation begin in the next loop iteration, before any timer
                     await drain_tasks(loop)
                 blocks.append([ret, *self.out, *self._state()])
@@ -284,6 +286,8 @@ class SchedImpl:
         try:
             # a third of the cases run with a loop clock that is ahead of the wall clock (timers fire early)
             skew = [0, 0, 250_000, 5_000_000][self.seed % 4] if self.skew is None else self.skew
+            if any(ln.startswith('op sleepl ') for ln in lines):
+                skew = 0          # late wake-ups and early-firing timers are separate scenarios
             return run_virtual(lambda loop: self._run(loop, lines), self.epoch_ns, skew)
         finally:
             signal.setitimer(signal.ITIMER_REAL, 0)
